@@ -241,12 +241,14 @@ func (r *FnRun) freshVal(st *State, t types.Type, hint string) Val {
 		st.assume(sAnd(sx("<=", "0", o), sx("<=", "0", l), sx("<=", l, c), sx("<", sx("rootid", b), st.alloc)))
 		st.assume(sImp(sEq(b, "null"), sEq(c, "0")))
 		st.assume(sNot(sx("(_ is ibox)", b)))
+		st.assume(sOr(sEq(b, "null"), sx("<=", sx("+", o, c), sx("alen", b))))
 		return Val{K: KSlice, T: t, Bas: b, Off: o, Len: l, Cap: c}
 	case KIface:
 		tg := r.fresh(hint+".t", "Int")
 		p := r.fresh(hint+".p", "Ref")
 		st.assume(sAnd(sx("<=", "0", tg), sx("<", sx("rootid", p), st.alloc)))
 		st.assume(sImp(sEq(tg, "0"), sEq(p, "null")))
+		r.assumeIface(st, tg, p, t)
 		return Val{K: KIface, T: t, Tag: tg, Pay: p}
 	case KStruct:
 		s := t.Underlying().(*types.Struct)
@@ -402,12 +404,14 @@ func (r *FnRun) load(st *State, p string, t types.Type, hint string) Val {
 		c := r.bind(st, sx("select", st.heap["I"], sx("fld", p, "3")), hint+".c", "Int")
 		st.assume(sAnd(sx("<=", "0", o), sx("<=", "0", l), sx("<=", l, c), sx("<", sx("rootid", b), st.alloc)))
 		st.assume(sImp(sEq(b, "null"), sEq(c, "0")))
+		st.assume(sOr(sEq(b, "null"), sx("<=", sx("+", o, c), sx("alen", b))))
 		return Val{K: KSlice, T: t, Bas: b, Off: o, Len: l, Cap: c}
 	case KIface:
 		tg := r.bind(st, sx("select", st.heap["I"], sx("fld", p, "0")), hint+".t", "Int")
 		pl := r.bind(st, sx("select", st.heap["R"], sx("fld", p, "1")), hint+".p", "Ref")
 		st.assume(sAnd(sx("<=", "0", tg), sx("<", sx("rootid", pl), st.alloc)))
 		st.assume(sImp(sEq(tg, "0"), sEq(pl, "null")))
+		r.assumeIface(st, tg, pl, t)
 		return Val{K: KIface, T: t, Tag: tg, Pay: pl}
 	case KStruct:
 		s := t.Underlying().(*types.Struct)
@@ -778,6 +782,9 @@ func (r *FnRun) assumeTy(st *State, v string, t types.Type) {
 	_ = 0
 	id := r.W.tagFor(pt.Elem())
 	st.assume(sOr(sEq(v, "null"), sEq(sx("tyof", v), fmt.Sprint(id))))
+	if at, ok := pt.Elem().Underlying().(*types.Array); ok {
+		st.assume(sOr(sEq(v, "null"), sEq(sx("alen", v), fmt.Sprint(at.Len()))))
+	}
 	if !r.W.embeddable[types.TypeString(pt.Elem(), nil)] {
 		// no type in the program contains a T by value: a *T points to a whole object
 		st.assume(sOr(sEq(v, "null"), sx("(_ is obj)", v)))
@@ -793,4 +800,24 @@ func (r *FnRun) assumeTy(st *State, v string, t types.Type) {
 			st.assume(sOr(sEq(v, "null"), sOr(ds...)))
 		}
 	}
+}
+
+// assumeIface: modelling assumptions about interface values that come from
+// memory or from the caller: the payload is null, a boxed scalar, or a whole
+// object whose type is the one named by the dynamic type tag; the dynamic
+// type implements the static interface type.
+func (r *FnRun) assumeIface(st *State, tag, pay string, t types.Type) {
+	st.assume(sOr(sEq(pay, "null"), sx("(_ is ibox)", pay), sAnd(sx("(_ is obj)", pay), sEq(sx("tyof", pay), sx("tagty", tag)))))
+	it, ok := t.Underlying().(*types.Interface)
+	if !ok || it.NumMethods() == 0 {
+		return
+	}
+	// positive form: the tag is nil, one of the known types implementing the
+	// interface, or a type outside the table
+	n := len(r.W.TagNames)
+	ds := []string{sEq(tag, "0"), sx(">", tag, fmt.Sprint(n))}
+	for _, id := range r.W.implementers(it, t) {
+		ds = append(ds, sEq(tag, fmt.Sprint(id)))
+	}
+	st.assume(sOr(ds...))
 }
